@@ -420,6 +420,9 @@ func evalPlanner(c PCase) (problems []string, n int) {
 		from = empty
 	case "drop_all":
 		to = empty
+		// the state the tables are dropped from was inspected from a named schema (the dev database);
+		// the plan is scoped (empty qualifier), so that name may appear nowhere.
+		from.Name, empty.Name = "dev_db", "dev_db"
 	default:
 		for _, n := range c.Edits {
 			for _, e := range dfu.Edits(d) {
@@ -442,6 +445,49 @@ func evalPlanner(c PCase) (problems []string, n int) {
 	}
 	plan.Version = "1"
 	CheckPlanFlags(plan, scan, bad)
+	// the reverse of DROP TABLE x is the CREATE TABLE x the same planner writes, under the same
+	// options, for the inverse change (both sides are plans of the real planner).
+	if c.Kind == "drop_all" {
+		inv, err := d.Diff.SchemaDiff(to, from, schema.DiffNormalized())
+		if err != nil {
+			bad("diff of the inverse change fails: %v", err)
+		} else {
+			var adds []schema.Change // (schema attributes are no part of a scoped plan.)
+			for _, ch := range inv {
+				if _, ok := ch.(*schema.AddTable); ok {
+					adds = append(adds, ch)
+				}
+			}
+			ip, err := pl.PlanChanges(context.Background(), "p", adds, func(o *migrate.PlanOptions) {
+				o.Indent = c.Indent
+				o.SchemaQualifier = new(string)
+			})
+			if err != nil {
+				bad("planning the inverse change fails: %v", err)
+			} else {
+				creates := map[string]bool{}
+				for _, ch := range ip.Changes {
+					if strings.HasPrefix(ch.Cmd, "CREATE TABLE") {
+						creates[ch.Cmd] = true
+					}
+				}
+				for _, ch := range plan.Changes {
+					if !strings.HasPrefix(ch.Cmd, "DROP TABLE") {
+						continue
+					}
+					rs, _ := ch.ReverseStmts()
+					for _, r := range rs {
+						if strings.Contains(r, "dev_db") {
+							bad("the plan is scoped to one schema, yet the reverse of %q names the schema the state was inspected from: %q", ch.Cmd, r)
+						}
+						if strings.HasPrefix(r, "CREATE TABLE") && !creates[r] {
+							bad("the reverse of %q is not a statement the planner writes for the inverse change under the same options: %q", ch.Cmd, r)
+						}
+					}
+				}
+			}
+		}
+	}
 	// a reverse undoes the whole statement: an ALTER TABLE of k clauses is reversed by k clauses.
 	for _, ch := range plan.Changes {
 		k := alterClauses(ch.Cmd)
